@@ -16,6 +16,8 @@ def _axis_size(tape, max_size):
     """1..max_size, and now and then 0: an empty axis is a valid input (no element is computed)."""
     if tape.coin(0.05, "empty-axis"):
         return 0
+    if tape.coin(0.06, "long-axis"):
+        return max_size + 1 + tape.choose(2, "long-size")  # now and then longer than the usual bound
     return 1 + tape.choose(max_size, "axis-size")
 
 
@@ -100,6 +102,14 @@ def gen_workload(tape, *, max_funcs=5, max_size=3, allow_gen=True, allow_tuple=T
             fd["none_mod"] = 2 + tape.choose(2, "none-mod")
         if tape.coin(0.15, "element-scope"):
             fd["resources_scope"] = "element"  # learners are then split per element
+        if tape.coin(0.12, "renames"):
+            cand = [p_ for p_ in fd["params"] if p_ not in fd["sig_defaults"]]
+            if cand:
+                fd["renamed"] = [tape.pick(cand, "renamed-param")]  # the function's own name differs (PipeFunc renames)
+        if n_out == 2 and tape.coin(0.3, "dict-out"):
+            fd["dict_out"] = True  # returns {name: value}, picked by a custom output_picker
+        if tape.coin(0.08, "debug-flag"):
+            fd["debug"] = True
         if n_out == 1 and kind != "gen" and tape.coin(0.1, "sequence-valued"):
             fd["seq_out"] = True  # each element / the single result is a 2-tuple
         # extra bound / default parameters
@@ -164,7 +174,7 @@ def gen_workload(tape, *, max_funcs=5, max_size=3, allow_gen=True, allow_tuple=T
                 scalars.append(o)
     _none_only_for_leaves(funcs)
     w = {"indices": idx_size, "inputs": inputs, "functions": funcs,
-         "internal_via": tape.pick(["pipefunc", "map-arg"], "internal-via")}
+         "internal_via": tape.pick(["pipefunc", "map-arg", "both"], "internal-via")}
     return w
 
 
@@ -210,14 +220,24 @@ def build_pipeline(w, *, cached=(), tags=None, **pipeline_kwargs):
 
     pfs = []
     for fd in w["functions"]:
-        fn = Fn(fd["name"], fd["params"], defaults=fd.get("sig_defaults") or None,
+        inner = {p_: f"in_{p_}" for p_ in fd.get("renamed", [])}
+        fn = Fn(fd["name"], [inner.get(p_, p_) for p_ in fd["params"]], defaults=fd.get("sig_defaults") or None,
                 n_out=len(fd["outputs"]), out_shape=fd.get("out_shape"),
                 tag=(tags or {}).get(fd["name"], ""), none_mod=0 if fd.get("out_shape") else fd.get("none_mod", 0),
-                seq_out=bool(fd.get("seq_out")) and not fd.get("out_shape"))
+                seq_out=bool(fd.get("seq_out")) and not fd.get("out_shape"),
+                outer={v: k for k, v in inner.items()}, dict_out=fd["outputs"] if fd.get("dict_out") else None)
         out = fd["outputs"][0] if len(fd["outputs"]) == 1 else tuple(fd["outputs"])
         kw = {}
-        if fd.get("out_shape") and w.get("internal_via", "pipefunc") == "pipefunc":
+        if fd.get("out_shape") and w.get("internal_via", "pipefunc") in ("pipefunc", "both"):
             kw["internal_shape"] = tuple(fd["out_shape"])
+        if inner:
+            kw["renames"] = {v: k for k, v in inner.items()}
+        if fd.get("dict_out"):
+            from .userfuncs import dict_picker
+
+            kw["output_picker"] = dict_picker
+        if fd.get("debug"):
+            kw["debug"] = True
         pfs.append(PipeFunc(fn, out, mapspec=fd.get("mapspec"), defaults=dict(fd.get("defaults") or {}) or None,
                             bound=dict(fd.get("bound") or {}) or None, cache=fd["name"] in cached,
                             resources_scope=fd.get("resources_scope", "map"), **kw))
@@ -226,7 +246,7 @@ def build_pipeline(w, *, cached=(), tags=None, **pipeline_kwargs):
 
 def map_kwargs(w):
     """Extra kwargs for Pipeline.map implied by the workload."""
-    if w.get("internal_via") == "map-arg":
+    if w.get("internal_via") in ("map-arg", "both"):
         ish = internal_shapes(w)
         if ish:
             return {"internal_shapes": ish}
@@ -251,6 +271,9 @@ def describe(w):
              **({"returns_none_1_in": fd["none_mod"]} if fd.get("none_mod") else {}),
              **({"resources_scope": "element"} if fd.get("resources_scope") == "element" else {}),
              **({"sequence_valued": True} if fd.get("seq_out") else {}),
+             **({"renamed": fd["renamed"]} if fd.get("renamed") else {}),
+             **({"dict_out": True} if fd.get("dict_out") else {}),
+             **({"debug": True} if fd.get("debug") else {}),
              **({"bound": fd["bound"]} if fd.get("bound") else {}),
              **({"defaults": {**fd["defaults"], **fd["sig_defaults"]}} if fd.get("defaults") or fd.get("sig_defaults") else {})}
             for fd in w["functions"]
